@@ -1,10 +1,10 @@
 #!/bin/bash
-# seed_pipeline.sh <property> [extra checks]: confirm both seeds of /tmp/wt-<property> (full suite, no filter), import, evaluate
-P=$1; shift
+# seed_pipeline.sh <property> [offset]: confirm both seeds of /tmp/wt-<property> (full suite), import as <property>-<i+offset>
+P=$1; OFF=${2:-0}
 cd /verif
 for i in 1 2; do
   [ -f /tmp/wt-$P/_seed/patch$i.diff ] || continue
   tools/seed_confirm.sh /tmp/wt-$P $i > /tmp/confirm_${P}_$i.out 2>&1
   grep -E "^build|^suite|^demo|patch does|FAILED$" /tmp/confirm_${P}_$i.out
-  tools/seed_import.sh /tmp/wt-$P $P $i
+  tools/seed_import.sh /tmp/wt-$P $P $i $((i+OFF))
 done
